@@ -213,12 +213,14 @@ Definition wf_axis (A : h5axis) : Prop :=
   NoDup (ax_ids A) /\ length (ax_indptr A) = S (length (ax_ids A)) /\ monotone (ax_indptr A)
   /\ Forall (fun p => p <= length (ax_data A)) (ax_indptr A)
   /\ length (ax_indices A) = length (ax_data A)
-  /\ md_ok (ax_md A) (length (ax_ids A)).
+  /\ md_ok (ax_md A) (length (ax_ids A))
+  /\ ax_md A <> Some [].            (* axis_load turns "no id has metadata" into None (table.py:4220) *)
+Definition md_nonemptyb (md : option (list Tree)) : bool := match md with Some [] => false | _ => true end.
 Definition wf_axisb (A : h5axis) : bool :=
   negb (zdup (ax_ids A)) && Nat.eqb (length (ax_indptr A)) (S (length (ax_ids A))) && monotoneb (ax_indptr A)
   && forallb (fun p => Nat.leb p (length (ax_data A))) (ax_indptr A)
   && Nat.eqb (length (ax_indices A)) (length (ax_data A))
-  && md_okb (ax_md A) (length (ax_ids A)).
+  && md_okb (ax_md A) (length (ax_ids A)) && md_nonemptyb (ax_md A).
 
 (* both stored views denote the same matrix (property C04): the observation view is the
    transpose of the sample view *)
